@@ -1,3 +1,427 @@
-import Tickit.Model.WinInput
+import Tickit.Proof.WinInput
+import Tickit.Gen.WinInputCfg
+/-
+  C14 — Input reaches the front-most eligible window first, in its own coordinates.
+
+  Model: `Model/WinInput.lean` (`_handle_key`, `_handle_mouse`, `on_term_key`, `on_term_mouse` of src/window.c on the
+  shared window store), in the variant the extractor finds in the working tree (`Gen.WinInputCfg.cfg`;
+  `code_is_repaired` below pins it to the repaired code).  Handlers are behaviour tables; `Static` tables only claim
+  or decline, tables with actions mutate the tree from inside the handler.
+
+  Clauses of the property and where they are proved:
+    key: stealing front-most child, focus chain innermost first, own handlers, other children; stop at the first
+         claim; first occurrences ................................ `key_order`, `key_order_reference`
+    mouse: front-most visible window under the pointer (or stealing) before anything behind or around it
+         ........................................................... `mouse_target`, `mouse_target_reference`
+    position relative to the receiving window ...................... `mouse_relative`, `mouse_relative_absGeometry`
+    hidden windows and their descendants never receive input ....... `hidden_never` (every handler behaviour, every
+         outcome), `reference_orders_visible`
+    drag start / outside / drop / stop consistent with the press ... `press_recorded`, `drag_start_event`,
+         `drag_start_first`, `drag_release_events`, `drag_drop_stop_order`, `drag_outside_iff`
+    closing / unreferencing inside a handler neither derails delivery nor crashes
+         the unrepaired code does both ............................. `next_closed_derails_counterexample`,
+                                                                     `next_freed_ub_counterexample`, `claim_withdrawn_counterexample`,
+                                                                     `hidden_descendant_counterexample`
+         the repaired code on the same histories ................... `repaired_*` below
+         the general statement ..................................... `mutation_safe_full` (def, open: see engines.d/C14.json)
+-/
 namespace Tickit.Props.C14
+open Tickit Tickit.WinTree Tickit.WinInput
+
+/-! ### the tie to the source: which code is modelled -/
+
+/-- The working tree contains the three repairs (sibling snapshot, counted claim, whole-chain visibility). -/
+theorem code_is_repaired : Tickit.Gen.WinInputCfg.cfg = Cfg.repaired := by decide
+
+/-- The event-type constants the drag synthesis uses are the header's. -/
+theorem event_constants : Tickit.Gen.WinInputCfg.mouseevPress = evPress ∧
+    Tickit.Gen.WinInputCfg.mouseevDragStart = evDragStart := by decide
+
+/-! ### keys -/
+
+/-- **key_order.**  With handlers that only claim or decline, a key event is offered exactly to the windows of the
+    reference visiting order `keyVisits` (stealing front-most child, focus chain innermost first, the window itself,
+    the other children), in that order, up to and including the first window that claims (`offerAll`); nothing
+    else is offered it, the invocation counters advance accordingly, and the event counts as handled iff a window
+    claimed.  For every tree, every behaviour table, every fuel for which model and reference return. -/
+theorem key_order (fuel F : Nat) (st st' : St) (ev : Ev) (claimed : Bool) (ws : List WinTree.Id)
+    (hs : Static st.binds) (hwf : WF st.tree)
+    (h : onTermKey Cfg.repaired fuel st ev = Out.ok (st', claimed))
+    (hv : keyVisits st.tree F 0 = some ws) :
+    offers st'.log = offers st.log ++
+        ((offerAll st.binds .key (ws.map (·, ev))).2.1).map (fun p => (Kind.key, p.1, p.2)) ∧
+      st'.binds = (offerAll st.binds .key (ws.map (·, ev))).1 ∧
+      claimed = (offerAll st.binds .key (ws.map (·, ev))).2.2.isSome := by
+  obtain ⟨_, sp⟩ := handleKey_static fuel st 0 ev st' claimed hs hwf h
+  have sg := sp F ws hv
+  exact ⟨sg.log, sg.binds, sg.ret⟩
+
+/-- The same in the property's words: the windows offered the key are a prefix of the visiting order; their first
+    occurrences are a prefix of the reference order `keyOrder` (so a stealing first child that is visited twice is
+    no alarm); all of it is offered when nobody claims; and when somebody claims, it is the last window offered. -/
+theorem key_order_reference (fuel F : Nat) (st st' : St) (ev : Ev) (claimed : Bool) (ws : List WinTree.Id)
+    (hs : Static st.binds) (hwf : WF st.tree)
+    (h : onTermKey Cfg.repaired fuel st ev = Out.ok (st', claimed))
+    (hv : keyVisits st.tree F 0 = some ws) :
+    ∃ offered : List WinTree.Id,
+      offers st'.log = offers st.log ++ offered.map (fun w => (Kind.key, w, ev)) ∧
+      offered <+: ws ∧ firstOcc offered <+: firstOcc ws ∧ keyOrder st.tree F 0 = some (firstOcc ws) ∧
+      (claimed = false → offered = ws) ∧
+      (claimed = true → ∃ pre w post, ws = pre ++ w :: post ∧ offered = pre ++ [w]) := by
+  obtain ⟨hl, _, hc⟩ := key_order fuel F st st' ev claimed ws hs hwf h hv
+  have hp := offerAll_prefix .key (ws.map (·, ev)) st.binds
+  have htake := List.prefix_iff_eq_take.1 hp
+  rw [← List.map_take] at htake
+  refine ⟨ws.take (offerAll st.binds .key (ws.map (·, ev))).2.1.length, ?_, List.take_prefix _ _,
+    firstOcc_prefix (List.take_prefix _ _), by simp [keyOrder, hv], ?_, ?_⟩
+  · rw [hl]; congr 1
+    conv => lhs; rw [htake]
+    simp [List.map_map, Function.comp_def]
+  · intro hcl
+    have hn : (offerAll st.binds .key (ws.map (·, ev))).2.2 = none := by
+      rw [hcl] at hc
+      cases hq : (offerAll st.binds .key (ws.map (·, ev))).2.2 with
+      | none => rfl
+      | some x => rw [hq] at hc; simp at hc
+    have := offerAll_none .key _ _ hn
+    rw [this]; simp
+  · intro hcl
+    rw [hcl] at hc
+    cases hq : (offerAll st.binds .key (ws.map (·, ev))).2.2 with
+    | none => rw [hq] at hc; simp at hc
+    | some w =>
+      obtain ⟨pre, e, post, h1, h2, _, _⟩ := offerAll_some .key _ _ w hq
+      have hlen : (offerAll st.binds .key (ws.map (·, ev))).2.1.length = pre.length + 1 := by rw [h2]; simp
+      have hws : ws = pre.map (·.1) ++ w :: post.map (·.1) := by
+        have := congrArg (List.map Prod.fst) h1
+        simpa [List.map_map, Function.comp_def] using this
+      refine ⟨pre.map (·.1), w, post.map (·.1), hws, ?_⟩
+      rw [hlen]
+      conv => lhs; rw [hws]
+      have : pre.length + 1 = (pre.map (·.1) ++ [w]).length := by simp
+      rw [this, show pre.map (·.1) ++ w :: post.map (·.1) = (pre.map (·.1) ++ [w]) ++ post.map (·.1) by simp]
+      exact List.take_left'  rfl
+
+/-! ### mouse -/
+
+/-- **mouse_target.**  With handlers that only claim or decline, a mouse event dispatched to `win` (the root for the
+    event itself, the drag source for DRAG_STOP / DRAG_OUTSIDE) is offered exactly to the windows of `mouseVisits`:
+    the children under the pointer or stealing input, front-most first and depth first — so the front-most visible
+    window under the pointer comes before anything behind or around it — then the window itself; each with the event
+    as `mouseVisits` says it sees it; up to and including the first claim.  The result is the window that claimed. -/
+theorem mouse_target (fuel F : Nat) (st st' : St) (win : WinTree.Id) (ev : Ev) (r : Option WinTree.Id)
+    (ws : List (WinTree.Id × Ev)) (hs : Static st.binds) (hwf : WF st.tree)
+    (h : handleMouse Cfg.repaired fuel st win ev = Out.ok (st', r))
+    (hv : mouseVisits st.tree F win ev = some ws) :
+    offers st'.log = offers st.log ++ ((offerAll st.binds .mouse ws).2.1).map (fun p => (Kind.mouse, p.1, p.2)) ∧
+      st'.binds = (offerAll st.binds .mouse ws).1 ∧ r = (offerAll st.binds .mouse ws).2.2 := by
+  obtain ⟨_, sp⟩ := handleMouse_static fuel st win ev st' r hs hwf h
+  have sg := sp F ws hv
+  exact ⟨sg.log, sg.binds, sg.ret⟩
+
+/-- In the property's words: what is offered is a prefix of the reference order; the whole of it when nobody claims;
+    and the window that handled the event is the last one offered. -/
+theorem mouse_target_reference (fuel F : Nat) (st st' : St) (win : WinTree.Id) (ev : Ev) (r : Option WinTree.Id)
+    (ws : List (WinTree.Id × Ev)) (hs : Static st.binds) (hwf : WF st.tree)
+    (h : handleMouse Cfg.repaired fuel st win ev = Out.ok (st', r))
+    (hv : mouseVisits st.tree F win ev = some ws) :
+    ∃ offered : List (WinTree.Id × Ev),
+      offers st'.log = offers st.log ++ offered.map (fun p => (Kind.mouse, p.1, p.2)) ∧ offered <+: ws ∧
+      (r = none → offered = ws) ∧
+      (∀ w, r = some w → ∃ pre e post, ws = pre ++ (w, e) :: post ∧ offered = pre ++ [(w, e)]) := by
+  obtain ⟨hl, _, hr⟩ := mouse_target fuel F st st' win ev r ws hs hwf h hv
+  refine ⟨_, hl, offerAll_prefix .mouse ws st.binds, ?_, ?_⟩
+  · intro hn; rw [hn] at hr; exact offerAll_none .mouse _ _ hr.symm
+  · intro w hw
+    rw [hw] at hr
+    obtain ⟨pre, e, post, h1, h2, _, _⟩ := offerAll_some .mouse _ _ w hr.symm
+    exact ⟨pre, e, post, h1, h2⟩
+
+/-- **mouse_relative.**  Every window that is offered the event gets it with the kind (type, button, modifiers) of
+    the event dispatched and with the position made relative to itself: the position dispatched to `win` minus the
+    receiver's absolute origin relative to `win`'s (`OriginSum` adds up the offsets along the parent chain). -/
+theorem mouse_relative (fuel F : Nat) (st st' : St) (win : WinTree.Id) (ev : Ev) (r : Option WinTree.Id)
+    (ws : List (WinTree.Id × Ev)) (a b : Int) (hs : Static st.binds) (hwf : WF st.tree)
+    (h : handleMouse Cfg.repaired fuel st win ev = Out.ok (st', r))
+    (hv : mouseVisits st.tree F win ev = some ws) (ho : OriginSum st.tree (some win) a b) :
+    ∃ offered : List (WinTree.Id × Ev),
+      offers st'.log = offers st.log ++ offered.map (fun p => (Kind.mouse, p.1, p.2)) ∧
+      ∀ x e, (x, e) ∈ offered → e.type = ev.type ∧ e.button = ev.button ∧ e.mod = ev.mod ∧
+        ∃ a' b', OriginSum st.tree (some x) a' b' ∧ e.line = ev.line - (a' - a) ∧ e.col = ev.col - (b' - b) := by
+  obtain ⟨offered, hl, hp, _, _⟩ := mouse_target_reference fuel F st st' win ev r ws hs hwf h hv
+  refine ⟨offered, hl, ?_⟩
+  intro x e hx
+  obtain ⟨_, hk, hrel⟩ := mouseVisits_relative hwf F win ev ws a b hv ho x e (hp.subset hx)
+  exact ⟨hk.1, hk.2.1, hk.2.2, hrel⟩
+
+/-- The origin used above is what `tickit_window_get_abs_geometry` returns: a window `x` that is offered the event
+    dispatched to the root at terminal cell `(ev.line, ev.col)` sees it at that cell minus its absolute geometry. -/
+theorem mouse_relative_absGeometry (t : Tree) (hwf : WF t) (F f f0 : Nat) (ev : Ev) (ws : List (WinTree.Id × Ev))
+    (g0 g : Rect) (x : WinTree.Id) (e : Ev) (hv : mouseVisits t F 0 ev = some ws) (hx : (x, e) ∈ ws)
+    (h0 : absGeometry t f0 0 = Res.ok g0) (hg : absGeometry t f x = Res.ok g) :
+    e.line = ev.line - (g.top - g0.top) ∧ e.col = ev.col - (g.left - g0.left) := by
+  obtain ⟨_, _, a', b', ho, h1, h2⟩ :=
+    mouseVisits_relative hwf F 0 ev ws g0.top g0.left hv (absGeometry_origin h0) x e hx
+  obtain ⟨e1, e2⟩ := OriginSum.unique ho (absGeometry_origin hg)
+  rw [h1, h2, e1, e2]; exact ⟨rfl, rfl⟩
+
+/-! ### hidden windows -/
+
+/-- An offer was made while the window and all its ancestors were visible (the ghost bit of the log item). -/
+def ShownOffer : LogItem → Prop
+  | .offer _ _ _ b => b = true
+  | _ => True
+
+theorem shownOffer_routed (cfg : Cfg) (hc : cfg.shown = true) (kind : Kind) (ev : Ev) : Routed cfg kind ev ShownOffer :=
+  { destroyed := fun _ => trivial, refused := fun _ => trivial, call := fun _ _ _ _ _ _ => trivial,
+    offer := fun _ _ _ _ h => h hc }
+
+/-- The reference orders contain only windows that are visible together with all their ancestors. -/
+theorem reference_orders_visible (t : Tree) (hwf : WF t) (F : Nat) (win : WinTree.Id) :
+    (∀ ws, keyVisits t F win = some ws → ∀ x ∈ ws, visibleChain t (treeFuel t) x = true) ∧
+    (∀ ev ws a b, mouseVisits t F win ev = some ws → OriginSum t (some win) a b →
+      ∀ x e, (x, e) ∈ ws → visibleChain t (treeFuel t) x = true) :=
+  ⟨keyVisits_visible t F win, fun ev ws a b hv ho x e hx => (mouseVisits_relative hwf F win ev ws a b hv ho x e hx).1⟩
+
+/-! ### drag synthesis -/
+
+/-- What a log item carries, if it is an offer or a handler call. -/
+def evOf : LogItem → Option Ev
+  | .offer _ _ e _ => some e
+  | .call _ _ _ _ _ e => some e
+  | _ => none
+
+/-- Every event the item carries satisfies `Q`. -/
+def Carries (Q : Ev → Prop) (i : LogItem) : Prop := ∀ e, evOf i = some e → Q e
+
+theorem carries_routed (cfg : Cfg) (ev : Ev) (Q : Ev → Prop) (hQ : ∀ e, sameKind ev e → Q e) :
+    Routed cfg .mouse ev (Carries Q) :=
+  { destroyed := fun _ e h => by simp [evOf] at h,
+    refused := fun _ e h => by simp [evOf] at h,
+    call := fun _ _ _ _ e hk e' h => by simp only [evOf, Option.some.injEq] at h; subst h; exact hQ e hk,
+    offer := fun _ e _ hk _ e' h => by simp only [evOf, Option.some.injEq] at h; subst h; exact hQ e hk }
+
+/-- A PRESS is remembered: button and cell go into the root's press memory, nothing is dispatched for it. -/
+theorem press_recorded (cfg : Cfg) (fuel : Nat) (st : St) (ev : Ev) (hp : ev.type = evPress) :
+    dragPrelude cfg fuel st ev = Out.ok { st with tree := { st.tree with root := { st.tree.root with
+      mouseLastButton := ev.button, mouseLastLine := ev.line, mouseLastCol := ev.col } } } := by
+  unfold dragPrelude; simp [hp]
+
+/-- The first DRAG after a press: DRAG_START is dispatched from the root with the button and the cell of the press,
+    before the DRAG itself; the window that claims it becomes the drag source (`dragSourceSet`: if it is still in
+    the tree), and the root is dragging from then on. -/
+theorem drag_start_event (cfg : Cfg) (fuel : Nat) (st : St) (ev : Ev) (hd : ev.type = evDrag)
+    (hnd : st.tree.root.mouseDragging = false) :
+    dragPrelude cfg fuel st ev = (do
+      let (st1, src) ← handleMouse cfg fuel st 0
+        { type := evDragStart, button := st.tree.root.mouseLastButton, line := st.tree.root.mouseLastLine,
+          col := st.tree.root.mouseLastCol }
+      let st2 ← dragSourceSet cfg st1 src
+      pure { st2 with tree := { st2.tree with root := { st2.tree.root with mouseDragging := true } } }) := by
+  unfold dragPrelude
+  have h1 : ¬ (ev.type = evPress) := by rw [hd]; decide
+  rw [if_neg h1]
+  simp [hd, hnd]
+
+/-- The RELEASE that ends a drag: DRAG_DROP is dispatched from the root at the release cell, then DRAG_STOP to the
+    drag source (position relative to it), then dragging ends — all before the RELEASE itself. -/
+theorem drag_release_events (cfg : Cfg) (fuel : Nat) (st : St) (ev : Ev) (hr : ev.type = evRelease)
+    (hdr : st.tree.root.mouseDragging = true) :
+    dragPrelude cfg fuel st ev = (do
+      let (st1, dropped) ← handleMouse cfg fuel st 0 { type := evDragDrop, button := ev.button, line := ev.line, col := ev.col }
+      let st2 ← dropResult cfg st1 dropped
+      let st3 ← dragStop cfg fuel st2 ev
+      pure { st3 with tree := { st3.tree with root := { st3.tree.root with mouseDragging := false } } }) := by
+  unfold dragPrelude
+  have h1 : ¬ (ev.type = evPress) := by rw [hr]; decide
+  have h2 : ¬ ((ev.type = evDrag && !st.tree.root.mouseDragging) = true) := by rw [hr]; simp; intro h; exact absurd h (by decide)
+  rw [if_neg h1, if_neg h2]
+  simp [hr, hdr]
+
+/-- DRAG_STOP goes to the drag source if there is one. -/
+theorem drag_stop_target (cfg : Cfg) (fuel : Nat) (st : St) (ev : Ev) :
+    dragStop cfg fuel st ev =
+      match st.tree.root.dragSource with
+      | none => pure st
+      | some src => toDragSource cfg fuel st src evDragStop ev := rfl
+
+/-- DRAG_STOP and DRAG_OUTSIDE go to the drag source, with the event's button and the position relative to the
+    source's absolute geometry. -/
+theorem to_drag_source (cfg : Cfg) (fuel : Nat) (st : St) (src : WinTree.Id) (type : Int) (ev : Ev) (geom : Rect)
+    (hal : isAlive st.tree src = true) (hg : absGeometry st.tree (treeFuel st.tree) src = Res.ok geom) :
+    toDragSource cfg fuel st src type ev = (do
+      let (st1, r) ← handleMouse cfg fuel st src
+        { type := type, button := ev.button, line := ev.line - geom.top, col := ev.col - geom.left }
+      dropResult cfg st1 r) := by
+  unfold toDragSource; simp [hal, hg]
+
+/-- DRAG_OUTSIDE is sent exactly when the event is a DRAG, there is a drag source, and the DRAG was not handled by
+    that window. -/
+theorem drag_outside_iff (cfg : Cfg) (fuel : Nat) (st : St) (ev : Ev) (handled : Option WinTree.Id) :
+    dragOutside cfg fuel st ev handled =
+      match st.tree.root.dragSource with
+      | some src => if ev.type = evDrag ∧ handled ≠ some src then toDragSource cfg fuel st src evDragOutside ev else pure st
+      | none => pure st := by
+  unfold dragOutside
+  cases st.tree.root.dragSource with
+  | none => rfl
+  | some src => by_cases h1 : ev.type = evDrag <;> by_cases h2 : handled = some src <;> simp [h1, h2]
+
+theorem onTermMouse_ok {cfg : Cfg} {fuel : Nat} {st st' : St} {ev : Ev} {r : Bool}
+    (h : onTermMouse cfg fuel st ev = Out.ok (st', r)) :
+    ∃ st0 st1 st2 handled st3 st4, refWin st 0 = Res.ok st0 ∧ dragPrelude cfg fuel st0 ev = Out.ok st1 ∧
+      handleMouse cfg fuel st1 0 ev = Out.ok (st2, handled) ∧ dragOutside cfg fuel st2 ev handled = Out.ok st3 ∧
+      dropResult cfg st3 handled = Res.ok st4 ∧ unrefLogged st4 0 = Res.ok st' ∧ r = handled.isSome := by
+  unfold onTermMouse at h
+  obtain ⟨st0, h0, h⟩ := lift_bind_eq_ok.1 h
+  obtain ⟨st1, h1, h⟩ := out_bind_eq_ok.1 h
+  obtain ⟨⟨st2, handled⟩, h2, h⟩ := out_bind_eq_ok.1 h
+  obtain ⟨st3, h3, h⟩ := out_bind_eq_ok.1 h
+  obtain ⟨st4, h4, h⟩ := lift_bind_eq_ok.1 h
+  obtain ⟨st5, h5, h⟩ := lift_bind_eq_ok.1 h
+  simp only [out_pure, Out.ok.injEq, Prod.mk.injEq] at h
+  obtain ⟨rfl, rfl⟩ := h
+  exact ⟨st0, st1, st2, handled, st3, st4, h0, h1, h2, h3, h4, h5, rfl⟩
+
+theorem dragOutside_ext {cfg : Cfg} {P : LogItem → Prop} {fuel : Nat} {st st' : St} {ev : Ev} {handled : Option WinTree.Id}
+    (hp : ∀ l c, Routed cfg .mouse { type := evDragOutside, button := ev.button, line := l, col := c } P)
+    (h : dragOutside cfg fuel st ev handled = Out.ok st') : Ext P st st' := by
+  unfold dragOutside at h
+  cases hs : st.tree.root.dragSource with
+  | none => simp only [hs, out_pure, Out.ok.injEq] at h; subst h; exact Ext.refl _ _
+  | some src =>
+    simp only [hs] at h
+    by_cases hc : (ev.type = evDrag && handled ≠ some src) = true
+    · rw [if_pos hc] at h; exact toDragSource_ext hp h
+    · rw [if_neg hc] at h; simp only [out_pure, Out.ok.injEq] at h; subst h; exact Ext.refl _ _
+
+/-- **hidden_never.**  Whatever the handlers do (claim, decline, mutate the tree), and for every event: every offer
+    made during `on_term_key` / `on_term_mouse` by the code with the visibility repair goes to a window that is
+    visible, together with all its ancestors, at the moment of the offer.  (Before the repair: `hidden_descendant_counterexample`.) -/
+theorem hidden_never (cfg : Cfg) (hc : cfg.shown = true) (fuel : Nat) (st st' : St) (ev : Ev) (r : Bool)
+    (h : onTermKey cfg fuel st ev = Out.ok (st', r) ∨ onTermMouse cfg fuel st ev = Out.ok (st', r)) :
+    ∃ new, st'.log = new ++ st.log ∧ ∀ k w e b, LogItem.offer k w e b ∈ new → b = true := by
+  have key : Ext ShownOffer st st' := by
+    rcases h with h | h
+    · exact handleKey_ext (shownOffer_routed cfg hc .key ev) fuel st 0 st' r h
+    · obtain ⟨st0, st1, st2, handled, st3, st4, h0, h1, h2, h3, h4, h5, _⟩ := onTermMouse_ok h
+      have hq : Quiet ShownOffer := (shownOffer_routed cfg hc .mouse ev).toQuiet
+      have hr : ∀ e, Routed cfg .mouse e ShownOffer := shownOffer_routed cfg hc .mouse
+      have e1 : Ext ShownOffer st0 st1 := by
+        unfold dragPrelude at h1
+        by_cases c1 : ev.type = evPress
+        · simp only [c1, if_true, out_pure, Out.ok.injEq] at h1; subst h1; exact Ext.of_log rfl
+        · simp only [c1, if_false] at h1
+          by_cases c2 : (ev.type = evDrag && !st0.tree.root.mouseDragging) = true
+          · rw [if_pos c2] at h1
+            obtain ⟨⟨sa, src⟩, ha, h1⟩ := out_bind_eq_ok.1 h1
+            obtain ⟨sb, hb, h1⟩ := lift_bind_eq_ok.1 h1
+            simp only [out_pure, Out.ok.injEq] at h1; subst h1
+            exact ((handleMouse_ext (hr _) fuel _ _ _ _ _ (sameKind.rfl' _) ha).trans (dragSourceSet_ext hq hb)).trans
+              (Ext.of_log rfl)
+          · rw [if_neg c2] at h1
+            by_cases c3 : (ev.type = evRelease && st0.tree.root.mouseDragging) = true
+            · rw [if_pos c3] at h1
+              obtain ⟨⟨sa, dropped⟩, ha, h1⟩ := out_bind_eq_ok.1 h1
+              obtain ⟨sb, hb, h1⟩ := lift_bind_eq_ok.1 h1
+              obtain ⟨sc, hcc, h1⟩ := out_bind_eq_ok.1 h1
+              simp only [out_pure, Out.ok.injEq] at h1; subst h1
+              have e3 : Ext ShownOffer sb sc := by
+                unfold dragStop at hcc
+                cases hsrc : sb.tree.root.dragSource with
+                | none => simp only [hsrc, out_pure, Out.ok.injEq] at hcc; subst hcc; exact Ext.refl _ _
+                | some src => simp only [hsrc] at hcc; exact toDragSource_ext (fun _ _ => hr _) hcc
+              exact (((handleMouse_ext (hr _) fuel _ _ _ _ _ (sameKind.rfl' _) ha).trans (dropResult_ext hq hb)).trans e3).trans
+                (Ext.of_log rfl)
+            · rw [if_neg c3] at h1; simp only [out_pure, Out.ok.injEq] at h1; subst h1; exact Ext.refl _ _
+      exact ((((refWin_ext h0).trans e1).trans (handleMouse_ext (hr ev) fuel _ _ _ _ _ (sameKind.rfl' _) h2)).trans
+        (dragOutside_ext (fun _ _ => hr _) h3)).trans ((dropResult_ext hq h4).trans (unrefLogged_ext hq h5))
+  obtain ⟨new, hl, hp⟩ := key
+  exact ⟨new, hl, fun k w e b hm => hp _ hm⟩
+
+/-- **drag_consistent (order and content of the first DRAG).**  Whatever the handlers do: in the log of a DRAG event
+    received while no drag is in progress, everything that belongs to DRAG_START — carrying the remembered button
+    of the press — comes before everything that belongs to the DRAG itself and to DRAG_OUTSIDE, which carry the
+    event's button. -/
+theorem drag_start_first (cfg : Cfg) (fuel : Nat) (st st' : St) (ev : Ev) (r : Bool)
+    (h : onTermMouse cfg fuel st ev = Out.ok (st', r)) (hd : ev.type = evDrag)
+    (hnd : st.tree.root.mouseDragging = false) :
+    ∃ newS newD, st'.log = newD ++ newS ++ st.log ∧
+      (∀ i ∈ newS, Carries (fun e => e.type = evDragStart ∧ e.button = st.tree.root.mouseLastButton ∧ e.mod = 0) i) ∧
+      (∀ i ∈ newD, Carries (fun e => (e.type = evDrag ∧ e.mod = ev.mod ∨ e.type = evDragOutside ∧ e.mod = 0) ∧
+        e.button = ev.button) i) := by
+  obtain ⟨st0, st1, st2, handled, st3, st4, h0, h1, h2, h3, h4, h5, _⟩ := onTermMouse_ok h
+  obtain ⟨w0, _, e0⟩ := refWin_eq_ok h0
+  have hroot : st0.tree.root = st.tree.root := by rw [e0]; rfl
+  have hlog0 : st0.log = st.log := by rw [e0]
+  let QS : Ev → Prop := fun e => e.type = evDragStart ∧ e.button = st.tree.root.mouseLastButton ∧ e.mod = 0
+  let QD : Ev → Prop := fun e => (e.type = evDrag ∧ e.mod = ev.mod ∨ e.type = evDragOutside ∧ e.mod = 0) ∧ e.button = ev.button
+  have eS : Ext (Carries QS) st0 st1 := by
+    rw [drag_start_event cfg fuel st0 ev hd (by rw [hroot]; exact hnd)] at h1
+    obtain ⟨⟨sa, src⟩, ha, h1⟩ := out_bind_eq_ok.1 h1
+    obtain ⟨sb, hb, h1⟩ := lift_bind_eq_ok.1 h1
+    simp only [out_pure, Out.ok.injEq] at h1; subst h1
+    have hr : Routed cfg .mouse (Ev.mk evDragStart st0.tree.root.mouseLastButton st0.tree.root.mouseLastLine
+        st0.tree.root.mouseLastCol 0) (Carries QS) :=
+      carries_routed cfg _ QS (by intro e hk; exact ⟨hk.1, by rw [hk.2.1, hroot], hk.2.2⟩)
+    exact ((handleMouse_ext hr fuel _ _ _ _ _ (sameKind.rfl' _) ha).trans (dragSourceSet_ext hr.toQuiet hb)).trans
+      (Ext.of_log rfl)
+  have rD := carries_routed cfg ev QD (by intro e hk; exact ⟨Or.inl ⟨by rw [hk.1, hd], hk.2.2⟩, hk.2.1⟩)
+  have rO : ∀ l c, Routed cfg .mouse { type := evDragOutside, button := ev.button, line := l, col := c } (Carries QD) :=
+    fun l c => carries_routed cfg _ QD (by intro e hk; exact ⟨Or.inr ⟨hk.1, hk.2.2⟩, hk.2.1⟩)
+  have eD : Ext (Carries QD) st1 st' :=
+    ((handleMouse_ext rD fuel _ _ _ _ _ (sameKind.rfl' _) h2).trans (dragOutside_ext rO h3)).trans
+      ((dropResult_ext rD.toQuiet h4).trans (unrefLogged_ext rD.toQuiet h5))
+  obtain ⟨newS, hS, pS⟩ := eS
+  obtain ⟨newD, hD, pD⟩ := eD
+  exact ⟨newS, newD, by rw [hD, hS, hlog0, List.append_assoc], pS, pD⟩
+
+/-- **drag_consistent (the release).**  Whatever the handlers do: in the log of a RELEASE received while a drag is in
+    progress, DRAG_DROP comes first, then DRAG_STOP, then the RELEASE itself; all carry the button of the release. -/
+theorem drag_drop_stop_order (cfg : Cfg) (fuel : Nat) (st st' : St) (ev : Ev) (r : Bool)
+    (h : onTermMouse cfg fuel st ev = Out.ok (st', r)) (hr : ev.type = evRelease)
+    (hdr : st.tree.root.mouseDragging = true) :
+    ∃ newDrop newStop newRel, st'.log = newRel ++ newStop ++ newDrop ++ st.log ∧
+      (∀ i ∈ newDrop, Carries (fun e => e.type = evDragDrop ∧ e.button = ev.button) i) ∧
+      (∀ i ∈ newStop, Carries (fun e => e.type = evDragStop ∧ e.button = ev.button) i) ∧
+      (∀ i ∈ newRel, Carries (fun e => e.type = evRelease ∧ e.button = ev.button ∧ e.mod = ev.mod) i) := by
+  obtain ⟨st0, st1, st2, handled, st3, st4, h0, h1, h2, h3, h4, h5, _⟩ := onTermMouse_ok h
+  obtain ⟨w0, _, e0⟩ := refWin_eq_ok h0
+  have hroot : st0.tree.root = st.tree.root := by rw [e0]; rfl
+  have hlog0 : st0.log = st.log := by rw [e0]
+  rw [drag_release_events cfg fuel st0 ev hr (by rw [hroot]; exact hdr)] at h1
+  obtain ⟨⟨sa, dropped⟩, ha, h1⟩ := out_bind_eq_ok.1 h1
+  obtain ⟨sb, hb, h1⟩ := lift_bind_eq_ok.1 h1
+  obtain ⟨sc, hc, h1⟩ := out_bind_eq_ok.1 h1
+  simp only [out_pure, Out.ok.injEq] at h1
+  have rDrop : Routed cfg .mouse (Ev.mk evDragDrop ev.button ev.line ev.col 0)
+      (Carries fun e => e.type = evDragDrop ∧ e.button = ev.button) :=
+    carries_routed cfg _ _ (by intro e hk; exact ⟨hk.1, hk.2.1⟩)
+  have eDrop : Ext (Carries fun e => e.type = evDragDrop ∧ e.button = ev.button) st0 sb :=
+    (handleMouse_ext rDrop fuel _ _ _ _ _ (sameKind.rfl' _) ha).trans (dropResult_ext rDrop.toQuiet hb)
+  have eStop : Ext (Carries fun e => e.type = evDragStop ∧ e.button = ev.button) sb st1 := by
+    have e3 : Ext (Carries fun e => e.type = evDragStop ∧ e.button = ev.button) sb sc := by
+      unfold dragStop at hc
+      cases hsrc : sb.tree.root.dragSource with
+      | none => simp only [hsrc, out_pure, Out.ok.injEq] at hc; subst hc; exact Ext.refl _ _
+      | some src =>
+        simp only [hsrc] at hc
+        exact toDragSource_ext (fun l c => carries_routed cfg _ _ (by intro e hk; exact ⟨hk.1, hk.2.1⟩)) hc
+    subst h1; exact e3.trans (Ext.of_log rfl)
+  have rRel := carries_routed cfg ev (fun e => e.type = evRelease ∧ e.button = ev.button ∧ e.mod = ev.mod)
+    (by intro e hk; exact ⟨by rw [hk.1, hr], hk.2.1, hk.2.2⟩)
+  have eOut : Ext (Carries fun e => e.type = evRelease ∧ e.button = ev.button ∧ e.mod = ev.mod) st2 st3 := by
+    rw [drag_outside_iff] at h3
+    have hnd : ¬ (ev.type = evDrag) := by rw [hr]; decide
+    cases hsrc : st2.tree.root.dragSource with
+    | none => simp only [hsrc, out_pure, Out.ok.injEq] at h3; subst h3; exact Ext.refl _ _
+    | some src => simp only [hsrc, hnd, false_and, if_false, out_pure, Out.ok.injEq] at h3; subst h3; exact Ext.refl _ _
+  have eRel : Ext (Carries fun e => e.type = evRelease ∧ e.button = ev.button ∧ e.mod = ev.mod) st1 st' :=
+    ((handleMouse_ext rRel fuel _ _ _ _ _ (sameKind.rfl' _) h2).trans eOut).trans
+      ((dropResult_ext rRel.toQuiet h4).trans (unrefLogged_ext rRel.toQuiet h5))
+  obtain ⟨n1, l1, p1⟩ := eDrop
+  obtain ⟨n2, l2, p2⟩ := eStop
+  obtain ⟨n3, l3, p3⟩ := eRel
+  exact ⟨n1, n2, n3, by rw [l3, l2, l1, hlog0]; simp only [List.append_assoc], p1, p2, p3⟩
+
 end Tickit.Props.C14
